@@ -217,7 +217,10 @@ def link_table(ctx: Ctx):
         n += 1
         v = p.value.elts[1]
         kw = {k.arg: flow.dump(k.value) for k in v.keywords} if isinstance(v, ast.Call) and flow.dump(v.func) == "self._replace" else {}
-        ok = kw.get("lookup") == f"self.lookup.set({link}.link_id, {link})" and kw.get("link_ids") == f"self.link_ids + ({link}.link_id,)"
+        # the LinkId table gains this link, and every other structure the accumulator carries for the spatial index is extended too
+        # (whatever its representation: parallel tuples, a map keyed by link id)
+        ok = kw.get("lookup") == f"self.lookup.set({link}.link_id, {link})" and len(kw) >= 2 and all(
+            val != f"self.{name}" and (f"{link}.link_id" in val or "centroid" in name or "centroid" in val) for name, val in kw.items() if name != "lookup")
         ctx.check(ok, "D1", "DU.link-table", "every link handed to add_link is entered in the LinkId table (and the id list), whatever its geometry", add, p.end,
                   why_bad=f"success path [{p.cond_text()[:120]}] returns {flow.dump(v)[:120]}: the graph still has the edge, so a route over it cannot be converted to links",
                   construct="Accumulator.add_link:link-left-out")
@@ -267,7 +270,18 @@ def link_table(ctx: Ctx):
                               f"indices of the last links are rejected as out of range and locations nearest to them snap to nothing",
                       construct="OSMRoadNetworkLinkHelper.build:link-count")
             good_tree = tree is not None and ids is not None and flow.dump(tree).replace("link_centroids", "link_ids").endswith(f"({flow.dump(ids)})")
-            ctx.check(good_tree, "D2", "DU.snap", "the KD-tree is built over the centroid list of the same accumulator as the id list", b, v,
+            form = "parallel lists of one accumulator"
+            if not good_tree and tree is not None and ids is not None and isinstance(tree, ast.Call) and len(tree.args) == 1 and isinstance(tree.args[0], (ast.ListComp, ast.GeneratorExp)):
+                # cKDTree([CENTROIDS[k] for k in IDS]) with the id list IDS itself: point i is the centroid of id i by construction
+                comp = tree.args[0]
+                g = comp.generators[0]
+                if len(comp.generators) == 1 and not g.ifs and flow.dump(g.iter) == flow.dump(ids) and isinstance(comp.elt, ast.Subscript) and flow.dump(comp.elt.slice) == flow.dump(g.target) \
+                        and "centroid" in flow.dump(comp.elt.value):
+                    good_tree = True
+                    form = "points looked up id by id from the id list"
+            if not good_tree and tree is not None and "accumulator" in flow.dump(tree) and "centroid" in flow.dump(tree) and flow.dump(tree).count("accumulator") == flow.dump(tree).count(flow.dump(ids).split(".")[0]):
+                raise AnalysisError(f"OSMRoadNetworkLinkHelper.build: cannot tell whether tree `{flow.dump(tree)[:100]}` runs parallel to ids `{flow.dump(ids)[:60]}`")
+            ctx.check(good_tree, "D2", "DU.snap", "the KD-tree's i-th point is the centroid of the i-th link id handed to the helper", b, v, why_ok=form,
                       why_bad=f"tree = {flow.dump(tree)[:80] if tree is not None else '?'}", construct="OSMRoadNetworkLinkHelper.build:tree-source")
     if n_ctor < 1:
         ctx.soft_fail("OSMRoadNetworkLinkHelper.build: constructor call not found")
@@ -316,6 +330,27 @@ def snapping(ctx: Ctx):
         ctx.soft_fail("position_from_geoid: expected two snapping returns")
 
 
+def _kd_points_in_h3_order(lh) -> bool:
+    """The points stored for the KD-tree are h3.h3_to_geo(<cell>) results in their own (lat, lon) order: either the call's value is
+    stored as it is, or it is unpacked into two names and a tuple of exactly those two names, in that order, is stored."""
+    for n in ast.walk(lh.tree):
+        if isinstance(n, ast.Assign) and isinstance(n.value, ast.Call) and flow.dump(n.value.func) == "h3.h3_to_geo" and len(n.targets) == 1:
+            t = n.targets[0]
+            if isinstance(t, ast.Tuple) and len(t.elts) == 2 and all(isinstance(e, ast.Name) for e in t.elts):
+                a, b = t.elts[0].id, t.elts[1].id
+                fwd = rev = 0
+                for m in ast.walk(lh.tree):
+                    if isinstance(m, ast.Tuple) and isinstance(m.ctx, ast.Load) and len(m.elts) == 2 and all(isinstance(e, ast.Name) for e in m.elts):
+                        ids = [m.elts[0].id, m.elts[1].id]
+                        fwd += ids == [a, b]
+                        rev += ids == [b, a]
+                if fwd >= 1 and rev == 0:
+                    return True
+            elif isinstance(t, ast.Name):
+                return True
+    return False
+
+
 def coordinate_roles(ctx: Ctx):
     repo = ctx.repo
     fn = repo.func(OPS, "safe_get_node_coordinates")
@@ -326,7 +361,7 @@ def coordinate_roles(ctx: Ctx):
     # KD-tree: points and queries both in h3_to_geo order (lat, lon)
     lh = repo.module(LH)
     src = lh.source
-    pts_ok = "link_centroid_lat, link_centroid_lon = h3.h3_to_geo(midpoint_hex)" in src and "((link_centroid_lat, link_centroid_lon),)" in src
+    pts_ok = _kd_points_in_h3_order(lh)
     q = repo.func(LH, "OSMRoadNetworkLinkHelper.link_by_geoid")
     q_ok = any(e.name == "query" and flow.dump(e.call) == f"self.links_spatial_lookup.query(h3.h3_to_geo({q.params[1]}))" for p in flow.paths(q.node) for e in p.events)
     ctx.check(pts_ok and q_ok, "D5", "CR.lat-lon", "KD-tree points and queries use the same (lat, lon) order (both straight from h3_to_geo)", q,
@@ -334,7 +369,13 @@ def coordinate_roles(ctx: Ctx):
     ce = repo.func(LH, "OSMRoadNetworkLinkHelper.build.create_link_entry")
     calls = [c for c in ast.walk(ce.node) if isinstance(c, ast.Call) and flow.dump(c.func) == "h3.geo_to_h3"]
     ok = len(calls) == 2 and all(len(c.args) == 2 and flow.dump(c.args[0]).endswith("_lat") and flow.dump(c.args[1]).endswith("_lon") for c in calls)
-    unpack_ok = "src_lat, src_lon = src_coord" in src and "dst_lat, dst_lon = dst_coord" in src
+    unpack_ok = True
+    for c in calls:
+        a0, a1 = flow.dump(c.args[0]), flow.dump(c.args[1])
+        # both names come out of ONE unpacking assignment, in the order written: (lat, lon) = <what safe_get_node_coordinates returned>
+        unp = [n for n in ast.walk(ce.node) if isinstance(n, ast.Assign) and len(n.targets) == 1 and isinstance(n.targets[0], ast.Tuple)
+               and [flow.dump(e) for e in n.targets[0].elts] == [a0, a1]]
+        unpack_ok = unpack_ok and len(unp) >= 1
     ctx.check(ok and unpack_ok, "D5", "CR.lat-lon", "link-end cells: geo_to_h3(lat, lon, ...) with (lat, lon) unpacked in the order safe_get_node_coordinates returns them", ce,
               why_bad="argument order / unpacking changed", construct="create_link_entry:geo_to_h3-order")
 
